@@ -117,6 +117,12 @@ func c12Run(c *harness.Check, cs dataCase) string {
 	if r.IsErr() {
 		return "unexpected error: " + r.Err
 	}
+	if cs.Note == c12AfterOperators {
+		// what the operators printed is not looked at, only the read that follows them
+		if i := strings.LastIndex(r.Out, "["); i >= 0 {
+			r.Out = r.Out[i:]
+		}
+	}
 	if !strings.HasPrefix(r.Out, "[") || !strings.HasSuffix(r.Out, "]") {
 		return fmt.Sprintf("output %q lost its delimiters", r.Out)
 	}
@@ -277,6 +283,8 @@ func walkPath(rt *rapid.T, expr string, v *spec.Value, steps *int) (string, *spe
 	}
 }
 
+const c12AfterOperators = "read after operators on the same path"
+
 func leafCase(data *spec.Data, expr string, v *spec.Value) (dataCase, bool) {
 	cs := dataCase{Data: data, Src: "[{{ " + expr + " }}]"}
 	switch v.T.K {
@@ -313,7 +321,7 @@ func leafCase(data *spec.Data, expr string, v *spec.Value) (dataCase, bool) {
 
 func TestC12_AccessPaths(t *testing.T) {
 	c := harness.New(t, "C12", "access-paths",
-		"data values generated by type-directed recursion to depth 4 (all integer widths, float32/64 incl. NaN/Inf/-0/extremes, bool, strings with arbitrary bytes, nil, pointers incl. nil and pointer-to-pointer, []T and []any, map[string]T, structs built at run time with reflect.StructOf, hand-written structs with unexported fields, embedded structs and pointer fields) and a random access path into them (.Field, .field, [\"key\"], .key, [i], mixed; pointers transparent): the leaf must render as its value (strings byte for byte, numbers/booleans/nil exactly as the equal literal renders, floats also by value), slices report their length, nil pointers render as nil; the caller's map must stay deep-equal to a copy. Non-trivial: path of >= 2 steps or a pointer/struct inside a slice/map or a nil pointer. Distinct by hash of data + path.")
+		"data values generated by type-directed recursion to depth 4 (all integer widths, float32/64 incl. NaN/Inf/-0/extremes, bool, strings with arbitrary bytes, nil, pointers incl. nil and pointer-to-pointer, []T and []any, map[string]T, structs built at run time with reflect.StructOf, hand-written structs with unexported fields, embedded structs and pointer fields) and a random access path into them (.Field, .field, [\"key\"], .key, [i], mixed; pointers transparent): the leaf must render as its value (strings byte for byte, numbers/booleans/nil exactly as the equal literal renders, floats also by value), slices report their length, nil pointers render as nil; for one number leaf in three the read follows a postfix --, a postfix ++, a negation and an addition applied to the same path (they compute a value, the data keeps its own); the caller's map must stay deep-equal to a copy. Non-trivial: path of >= 2 steps or a pointer/struct inside a slice/map or a nil pointer. Distinct by hash of data + path.")
 	defer c.Finish()
 	runRapid(t, c, 20000, 180000, func(rt *rapid.T) {
 		root := genSpecValue(4, false).Draw(rt, "value")
@@ -333,7 +341,13 @@ func TestC12_AccessPaths(t *testing.T) {
 		}
 		desc := spec.Describe(root)
 		nt := steps >= 2 || strings.Contains(desc, "(nil)") || strings.Contains(desc, "&")
-		c.Case(nt, expr+"|"+mustJSON(data), "leaf:"+cs.Expect, fmt.Sprintf("steps:%d", min(steps, 4)))
+		if (cs.Expect == "int" || cs.Expect == "float") && strings.HasPrefix(cs.Src, "[{{ "+expr+" }}") && rapid.IntRange(0, 2).Draw(rt, "afterOperators") == 0 {
+			// the value is what the data holds also after operators were applied to it: they compute, they do not store
+			cs.Src = "{{ (" + expr + ")-- }}{{ " + expr + "++ }}{{ (" + expr + ")++ }}{{ -(" + expr + ") }}{{ " + expr + " + " + expr + " }}" + cs.Src
+			cs.Note = c12AfterOperators
+			c.Class("read-after-operators")
+		}
+		c.Case(nt, cs.Src+"|"+mustJSON(data), "leaf:"+cs.Expect, fmt.Sprintf("steps:%d", min(steps, 4)))
 		if nt {
 			c.Sample(cs.sample())
 		}
